@@ -140,6 +140,8 @@ class Fn:
         self.tuple_literals = {}        # name -> ast.Tuple of ast.Tuple (iterables of a `for`)
         self.tmp = 0
         self.loop_depth = 0
+        self.if_no = 0
+        self.if_depth = 0
         self.loop_no = 0                # ordinal of the `for` statement in source order (names do not depend on line numbers)
         self.aux = []                   # auxiliary definitions: one per outermost `for` loop nest
 
@@ -629,8 +631,12 @@ class Fn:
                             raise Untranslatable(f"{self.name}: `{v}` may be unbound after the `if` at line {s.lineno}")
                     return ["  " * (ind + 1) + ("(" + ", ".join(carried) + ")" if len(carried) != 1 else carried[0])]
                 tail.carried = carried
-                tb = self.block(s.body, env, live_after, tail, ind + 1)
-                to = self.block(s.orelse, env, live_after, tail, ind + 1)
+                self.if_depth += 1
+                try:
+                    tb = self.block(s.body, env, live_after, tail, ind + 1)
+                    to = self.block(s.orelse, env, live_after, tail, ind + 1)
+                finally:
+                    self.if_depth -= 1
                 if not carried:
                     continue        # the statement has no effect that is observed later
                 if k == len(stmts) - 1 and getattr(fall, "carried", None) == carried:
@@ -644,15 +650,37 @@ class Fn:
                     fall(env)       # records the environment for the enclosing `if`
                     return lines + [pad + f"if {c} then"] + tb + [pad + "else"] + to
                 pat = "(" + ", ".join(carried) + ")" if len(carried) != 1 else carried[0]
-                lines.append(pad + f"let {pat} := if {c} then")
-                lines += tb
-                lines.append(pad + "  else")
-                lines += to
+                env_before = dict(env)
                 for v in carried:
                     ts = {e[v] for e in envs}
                     if len(ts) != 1:
                         raise Untranslatable(f"{self.name}: `{v}` has types {ts} after the `if` at line {s.lineno}")
                     env[v] = ts.pop()
+                if self.if_depth == 0 and self.loop_depth == 0 and any(isinstance(x, ast.For) for x in ast.walk(s)):
+                    # a top-level conditional block that contains loops becomes an auxiliary definition of its own
+                    # (closure-converted like the loop nests), so that the enclosing function stays a short chain of
+                    # lets and calls and theorems can be stated block by block
+                    self.if_no += 1
+                    name = f"{self.lean_name()}_if{self.if_no}"
+                    used = set(self.live_in1(s, set(carried)))
+                    for nm, (lit, _) in self.tuple_literals.items():
+                        if nm in self.uses(s):
+                            used |= self.uses(lit)
+                    free = sorted(n for n in used if n in env_before and env_before[n] != "iterable")
+                    blines = [pad + f"if {c} then"] + tb + [pad + "else"] + to
+                    uses_big = any(re.search(r"\bbig\b", ln) for ln in blines)
+                    if uses_big:
+                        self.uses_big = True
+                    ps = ("(big : α) " if uses_big else "") + " ".join(f"({v} : {lean_type(env_before[v])})" for v in free)
+                    rt = " × ".join(lean_type(env[v]) for v in carried)
+                    self.aux.append("\n".join([f"/-- the `if` block at line {s.lineno} of `{self.modkey}.{self.name}` -/",
+                                               f"def {name} {ps} : {rt} :="] + blines) + "\n")
+                    lines.append(pad + f"let {pat} := ({name} {'big ' if uses_big else ''}" + " ".join(free) + ")")
+                    continue
+                lines.append(pad + f"let {pat} := if {c} then")
+                lines += tb
+                lines.append(pad + "  else")
+                lines += to
                 continue
             raise Untranslatable(f"{self.name}: statement {type(s).__name__}: {ast.unparse(s)[:80]}")
         if fall is None:
